@@ -91,22 +91,26 @@ theorem mapOpt_get {α β : Type} (f : α → Option β) :
 
 /-! ### MachineModel.is_compatible -/
 
-/-- The placement can be indexed wherever the code indexes it. -/
+/-- The placement can be indexed wherever the code indexes it: at every qudit of a
+non-placeholder operation, at every qudit of the circuit, and every entry is a qudit of the
+machine. -/
 def placementOK (m : MachView) (cv : CircView) (placement : Option (List Nat)) : Bool :=
   let pl := placement.getD (List.range cv.radixes.length)
-  !(cv.edges.any (fun e => decide (pl.length ≤ e.1) || decide (pl.length ≤ e.2))
-    || decide (pl.length < cv.radixes.length)
-    || pl.any (fun p => decide (m.radixes.length ≤ p)))
+  (visitedPairs cv).all (fun p => decide (p.1 < pl.length) && decide (p.2 < pl.length))
+    && decide (cv.radixes.length ≤ pl.length)
+    && pl.all (fun p => decide (p < m.radixes.length))
 
-/-- The specification: not wider than the machine; every gate native; every coupled pair of the
-circuit is (through the placement) an edge of the machine, in either orientation; radixes match. -/
+/-- The three-clause specification, placeholders aside: not wider than the machine; the gate of
+every operation that is not a barrier / measurement / reset placeholder is native; every pair of
+qudits of every such operation is (through the placement) an edge of the machine, in either
+orientation; radixes match. -/
 def compatSpec (m : MachView) (cv : CircView) (placement : Option (List Nat)) : Bool :=
   let pl := placement.getD (List.range cv.radixes.length)
   decide (cv.radixes.length ≤ m.radixes.length)
-    && cv.gates.all (fun g => m.gates.contains g)
-    && cv.edges.all (fun e => coupled m (pl.getD e.1 0, pl.getD e.2 0))
-    && (List.range cv.radixes.length).all
-        (fun i => cv.radixes.getD i 0 == m.radixes.getD (pl.getD i 0) 0)
+    && cv.ops.all (fun o => o.ph || m.gates.contains o.gate)
+    && cv.ops.all (fun o => o.ph ||
+        (pairsOf o.loc).all (fun p => coupled m (pl.getD p.1 0, pl.getD p.2 0)))
+    && cv.radixes.zipIdx.all (fun x => x.1 == m.radixes.getD (pl.getD x.2 0) 0)
 
 theorem any_not {α : Type} (l : List α) (p : α → Bool) :
     l.any (fun x => !p x) = !l.all p := by
@@ -114,29 +118,118 @@ theorem any_not {α : Type} (l : List α) (p : α → Bool) :
   | nil => rfl
   | cons x xs ih => simp [List.any_cons, List.all_cons, ih, Bool.not_and]
 
-theorem compat_core (A B G C D : Bool) (hG : G = false) :
-    (if A = true then some false else if B = true then some false else if G = true then none
-      else if C = true then some false else if D = true then some false else some true)
-      = some (!A && !B && !C && !D) := by
-  cases A <;> cases B <;> cases C <;> cases D <;> simp [hG]
+theorem scanPairs_ok (m : MachView) (pl : List Nat) :
+    ∀ prs : List (Nat × Nat), (∀ p ∈ prs, p.1 < pl.length ∧ p.2 < pl.length) →
+      scanPairs m pl prs
+        = some (prs.any (fun p => !coupled m (pl.getD p.1 0, pl.getD p.2 0))) := by
+  intro prs
+  induction prs with
+  | nil => intro _; rfl
+  | cons p rest ih =>
+    intro h
+    obtain ⟨a, b⟩ := p
+    have hab := h (a, b) (List.mem_cons_self ..)
+    have ha : pl[a]? = some (pl.getD a 0) := by
+      rw [List.getD_eq_getElem?_getD, List.getElem?_eq_getElem hab.1]; rfl
+    have hb : pl[b]? = some (pl.getD b 0) := by
+      rw [List.getD_eq_getElem?_getD, List.getElem?_eq_getElem hab.2]; rfl
+    have ih' := ih (fun q hq => h q (List.mem_cons_of_mem _ hq))
+    simp only [scanPairs, ha, hb, List.any_cons]
+    cases hc : coupled m (pl.getD a 0, pl.getD b 0) <;> simp [ih']
+
+theorem scanRadix_ok (m : MachView) (pl : List Nat)
+    (hpl : ∀ p ∈ pl, p < m.radixes.length) :
+    ∀ l : List (Nat × Nat), (∀ x ∈ l, x.2 < pl.length) →
+      scanRadix m pl l
+        = some (l.any (fun x => !(x.1 == m.radixes.getD (pl.getD x.2 0) 0))) := by
+  intro l
+  induction l with
+  | nil => intro _; rfl
+  | cons x rest ih =>
+    intro h
+    obtain ⟨r, i⟩ := x
+    have hi : i < pl.length := h (r, i) (List.mem_cons_self ..)
+    have h1 : pl[i]? = some (pl.getD i 0) := by
+      rw [List.getD_eq_getElem?_getD, List.getElem?_eq_getElem hi]; rfl
+    have hp : pl.getD i 0 < m.radixes.length := by
+      apply hpl
+      rw [List.getD_eq_getElem?_getD, List.getElem?_eq_getElem hi]
+      exact List.getElem_mem hi
+    have h2 : m.radixes[pl.getD i 0]? = some (m.radixes.getD (pl.getD i 0) 0) := by
+      rw [List.getD_eq_getElem?_getD (l := m.radixes), List.getElem?_eq_getElem hp]; rfl
+    have ih' := ih (fun q hq => h q (List.mem_cons_of_mem _ hq))
+    simp only [scanRadix, h1, h2, List.any_cons]
+    cases hc : (r == m.radixes.getD (pl.getD i 0) 0) <;> simp [ih']
+
+theorem visitedPairs_any (cv : CircView) (f : Nat × Nat → Bool) :
+    (visitedPairs cv).any f = cv.ops.any (fun o => !o.ph && (pairsOf o.loc).any f) := by
+  unfold visitedPairs
+  induction cv.ops with
+  | nil => rfl
+  | cons o os ih =>
+    cases hph : o.ph <;> simp [hph, List.flatMap_cons, List.any_append, ih]
+
+theorem zipIdx_snd_lt {α : Type} (l : List α) : ∀ x ∈ l.zipIdx, x.2 < l.length := by
+  intro x hx
+  obtain ⟨a, i⟩ := x
+  have := List.mem_zipIdx' hx
+  exact this.1
 
 theorem isCompatible_spec (m : MachView) (cv : CircView) (placement : Option (List Nat))
     (hp : placementOK m cv placement = true) :
     isCompatible m cv placement = some (compatSpec m cv placement) := by
-  unfold isCompatible compatSpec
   unfold placementOK at hp
-  simp only [] at hp ⊢
-  rw [compat_core _ _ _ _ _ (by simpa using hp)]
-  rw [any_not, any_not, any_not]
-  congr 1
-  have : decide (cv.radixes.length > m.radixes.length)
-      = !decide (cv.radixes.length ≤ m.radixes.length) := by
-    by_cases h : cv.radixes.length ≤ m.radixes.length
-    · have : ¬ cv.radixes.length > m.radixes.length := by omega
-      simp [h, this]
-    · have : cv.radixes.length > m.radixes.length := by omega
-      simp [h, this]
-  rw [this]
-  simp only [Bool.not_not]
+  simp only [Bool.and_eq_true, List.all_eq_true, decide_eq_true_eq] at hp
+  obtain ⟨⟨h1, h2⟩, h3⟩ := hp
+  have hs := scanPairs_ok m (placement.getD (List.range cv.radixes.length)) (visitedPairs cv) h1
+  have hr := scanRadix_ok m (placement.getD (List.range cv.radixes.length)) h3 cv.radixes.zipIdx
+    (fun x hx => Nat.lt_of_lt_of_le (zipIdx_snd_lt _ x hx) h2)
+  unfold isCompatible compatSpec
+  simp only [hs, hr, visitedPairs_any]
+  by_cases hw : cv.radixes.length > m.radixes.length
+  · have : ¬ cv.radixes.length ≤ m.radixes.length := by omega
+    simp [hw, this]
+  · have hw' : cv.radixes.length ≤ m.radixes.length := by omega
+    simp only [hw, if_false, hw', decide_true, Bool.true_and]
+    rw [show (cv.ops.any fun o => !o.ph && !m.gates.contains o.gate)
+          = !(cv.ops.all fun o => o.ph || m.gates.contains o.gate) from by
+        rw [← any_not]; congr 1; funext o; cases o.ph <;> simp]
+    rw [show (cv.ops.any fun o => !o.ph && (pairsOf o.loc).any fun p =>
+            !coupled m ((placement.getD (List.range cv.radixes.length)).getD p.1 0,
+              (placement.getD (List.range cv.radixes.length)).getD p.2 0))
+          = !(cv.ops.all fun o => o.ph || (pairsOf o.loc).all fun p =>
+            coupled m ((placement.getD (List.range cv.radixes.length)).getD p.1 0,
+              (placement.getD (List.range cv.radixes.length)).getD p.2 0)) from by
+        rw [← any_not]; congr 1; funext o; rw [any_not]; cases o.ph <;> simp]
+    rw [any_not]
+    cases (cv.ops.all fun o => o.ph || m.gates.contains o.gate)
+      <;> cases (cv.ops.all fun o => o.ph || (pairsOf o.loc).all fun p =>
+            coupled m ((placement.getD (List.range cv.radixes.length)).getD p.1 0,
+              (placement.getD (List.range cv.radixes.length)).getD p.2 0))
+      <;> cases (cv.radixes.zipIdx.all fun x =>
+            x.1 == m.radixes.getD ((placement.getD (List.range cv.radixes.length)).getD x.2 0) 0)
+      <;> rfl
+
+/-- `is_compatible` never looks at placeholder operations: deleting them from the circuit changes
+neither the verdict nor whether the call raises. -/
+theorem isCompatible_strip (m : MachView) (cv : CircView) (placement : Option (List Nat)) :
+    isCompatible m cv placement
+      = isCompatible m { cv with ops := cv.ops.filter (fun o => !o.ph) } placement := by
+  have h1 : ((cv.ops.filter fun o => !o.ph).any fun o => !o.ph && !m.gates.contains o.gate)
+      = cv.ops.any fun o => !o.ph && !m.gates.contains o.gate := by
+    rw [List.any_filter]; congr 1; funext o; cases o.ph <;> simp
+  have h2 : visitedPairs { cv with ops := cv.ops.filter fun o => !o.ph } = visitedPairs cv := by
+    simp [visitedPairs, List.filter_filter]
+  simp only [isCompatible, h1, h2]
+
+/-- `itertools.combinations(l, 2)` enumerates exactly the pairs of positions `i < j`. -/
+theorem pairsOf_all (f : Nat × Nat → Bool) :
+    ∀ l : List Nat, (pairsOf l).all f = true ↔ l.Pairwise (fun a b => f (a, b) = true) := by
+  intro l
+  induction l with
+  | nil => simp [pairsOf]
+  | cons x xs ih =>
+    simp only [pairsOf, List.all_append, Bool.and_eq_true, List.all_map, List.pairwise_cons, ih]
+    simp [List.all_eq_true, Function.comp_def]
 
 end BqVerif.Pipeline
